@@ -514,7 +514,27 @@ impl Property for C03 {
                 }
             };
             out.add("rustc_runs", 1);
-            let mut r = real::run(&exe, &[], None, &sc.stdin, &chunks, Duration::from_secs(20)).expect("spawn");
+            // when the program ends without ever seeing the end of its input, the producer may still be there:
+            // standard input is then kept open until the executable has exited
+            let never_eof = pf.m.probes[probe::READ_EOF] == 0 && (sc.stdin.is_empty() || sc.stdin.ends_with(b"\n"));
+            let held = never_eof && (sc.run + level as u64) % 2 == 0;
+            if held {
+                out.add("stdin_held_open", 1);
+            }
+            let mut r = if held {
+                real::run_stdin_held_open(&exe, &[], &sc.stdin, &chunks, Duration::from_secs(20)).expect("spawn")
+            } else {
+                real::run(&exe, &[], None, &sc.stdin, &chunks, Duration::from_secs(20)).expect("spawn")
+            };
+            if r.timed_out && held {
+                let _ = std::fs::remove_file(&exe);
+                out.violation = Some(Violation::new(
+                    &tag("waits-for-end-of-input"),
+                    "the executable ends as the interpreter does, without waiting for standard input to be closed",
+                    format!("still running after 20 s with standard input open ; stdout so far {:?}", lossy(&r.stdout)),
+                ));
+                return out;
+            }
             if r.timed_out {
                 // retry alone before it counts
                 r = real::run(&exe, &[], None, &sc.stdin, &chunks, Duration::from_secs(40)).expect("spawn");
